@@ -11,6 +11,15 @@ Obligations
   (i)   table: the implementation each (class, tag) query resolves to answers (no NotImplementedError) and answers
         True only for the pairs the property allows (ALLOWED below: the classes for which (iii) proves the matrix
         property); a class inheriting True from a tagged base where the property is not proved is a failure.
+  (i')  wrappers: the closed-world table is not enough — the public decorators lower_triangular / upper_triangular /
+        positive_semidefinite / ... exist so that USERS declare tagged classes, and A.T / A.I of such an operator is a
+        furax wrapper object.  Every class holding operator fields is therefore queried on an instance wrapping a
+        synthetic operand whose seven tag values are free Booleans (lx.is_*(operand) = those Booleans); a tag answered
+        True for the wrapper must be implied by matrix facts of the operand: for a lazy transpose
+        lower(A.T) => upper(A), upper(A.T) => lower(A), diagonal / tridiagonal / symmetric / PSD / NSD(A.T) => the
+        same tag of A; for a lazy inverse diagonal / symmetric / PSD / NSD / lower / upper(A.I) => the same tag of A
+        (the inverse of a lower triangular matrix is lower triangular), tridiagonal(A.I) never (not preserved by
+        inversion); any other class may not make its answer depend on its operands.
   (ii)  wiring: symmetric => `.T` returns the operator itself; orthogonal (furax's decorator) => the class's `inverse`
         IS its `transpose` (same function object) and `.I` gives what `.T` gives; square => `out_structure` IS
         `in_structure`.  Checked for every class that has a decorated class in its MRO.
@@ -104,6 +113,8 @@ def import_order(P):
                     events.append(('class', m.classes[s.name]))
                 elif isinstance(s, ast.Expr) and isinstance(s.value, ast.Call):
                     events.append(('call', m, s.value))
+                elif isinstance(s, (ast.For, ast.While, ast.With, ast.Try, ast.AugAssign, ast.Delete)):
+                    events.append(('stmt', m, s))      # e.g. `for tag in TAGS: tag.register(Cls)(...)` at module level
         stmts(m.tree.body)
     load('furax')
     for n in sorted(P.modules):
@@ -128,6 +139,11 @@ def run_registration(S):
             _, m, call = ev
             if any(is_operator_class(c) for c in m.classes.values()):
                 I.ev(call, Frame(m))
+            continue
+        if ev[0] == 'stmt':
+            _, m, stmt = ev
+            if any(is_operator_class(c) for c in m.classes.values()):
+                I.exec_stmt(stmt, I.run.ghost.setdefault('module_frames', {}).setdefault(m.name, Frame(m)))
             continue
         ci = ev[1]
         if not is_operator_class(ci):
@@ -179,6 +195,49 @@ def resolved(ci, name):
     return payload
 
 
+TRANSPOSE_RULE = {'is_lower_triangular': 'is_upper_triangular', 'is_upper_triangular': 'is_lower_triangular'}
+INVERSE_PRESERVED = {'is_diagonal', 'is_symmetric', 'is_positive_semidefinite', 'is_negative_semidefinite',
+                     'is_lower_triangular', 'is_upper_triangular'}
+
+
+def user_operand(S, name):
+    """an operand of a user-declared class: its seven tag values are free Booleans"""
+    from theories import synth
+    P = S.ck.P
+    ghost = S.I.run.ghost
+    if 'UserOperator' not in ghost:
+        ghost['UserOperator'] = synth.concrete_subclass(P, P.cls(f'{CORE}.AbstractLinearOperator'), 'UserOperator',
+                                                       extra_methods=('mv', 'in_structure'))
+        fns = DP.functions(S.I)
+        for tag in DP.TAGS:
+            fns[tag].registry[ClassRef(ghost['UserOperator'])] = PyFunc(
+                (lambda tag: lambda interp, op: op.fields['_tags'][tag])(tag), f'{tag}[UserOperator]')
+    o = Obj(ghost['UserOperator'], tag=name)
+    o.fields['_tags'] = {tag: z3.Bool(f'{name}_{tag}') for tag in DP.TAGS}
+    for tag, b in o.fields['_tags'].items():
+        S.inputs[f'{name}_{tag}'] = b
+    return o
+
+
+def wrapping_instance(S, ci, operator_names):
+    """an instance of ci whose operator-valued fields hold synthetic user operands; (instance, [operands])"""
+    import re
+    inst, operands = Obj(ci), []
+    for f in ci.all_fields():
+        words = set(re.findall(r'[A-Za-z_][A-Za-z_0-9]*', f.annotation))
+        if not (words & operator_names):
+            continue
+        if 'list' in words or 'PyTree' in words:
+            ops = [user_operand(S, f'{f.name}0'), user_operand(S, f'{f.name}1')]
+            inst.fields[f.name] = B.PyList(ops)
+            operands += ops
+        else:
+            op = user_operand(S, 'A')
+            inst.fields[f.name] = op
+            operands.append(op)
+    return inst, operands
+
+
 def build(ck):
     T = theory()
     P = ck.P
@@ -215,7 +274,10 @@ def build(ck):
                 # the abstract root itself (mv is abstract: no instance exists); every other class is a subclass
                 S.oblige('post', P.is_abstract(ci), tag='AbstractLinearOperator-is-abstract (no instance to query)')
                 continue
-            inst = Obj(ci)
+            inst, operands = wrapping_instance(S, ci, {c.name for c in classes})
+            A = operands[0] if len(operands) == 1 else None
+            family = 'transpose' if any(k.name == 'TransposeOperator' for k in ci.mro) else \
+                'inverse' if any(k.name == 'AbstractLazyInverseOperator' for k in ci.mro) else 'other'
             row = {'class': ci.name}
             for tag in DP.TAGS:
                 key, impl = fns[tag].dispatch(S.I, ClassRef(ci))
@@ -229,8 +291,26 @@ def build(ck):
                              note=f'resolves to the implementation registered for {where}, which raises {e.exc.name}')
                     row[tag] = f'raises {e.exc.name} (via {where})'
                     continue
+                if isinstance(v, z3.BoolRef):
+                    # (i') the answer depends on the operand(s): it must be implied by the operand's matrix facts
+                    worc = {'name': 'user_tagged', 'wrapper': ci.name, 'tag': tag}
+                    row[tag] = f'depends on the operand: {v} (via {where})'
+                    if family == 'transpose' and A is not None:
+                        need = A.fields['_tags'][TRANSPOSE_RULE.get(tag, tag)]
+                        S.oblige('post', z3.Implies(v, need), oracle=worc,
+                                 tag=f'{ci.name}.{tag}(A.T)-implies-{TRANSPOSE_RULE.get(tag, tag)}(A)')
+                    elif family == 'inverse' and A is not None and tag in INVERSE_PRESERVED:
+                        S.oblige('post', z3.Implies(v, A.fields['_tags'][tag]), oracle=worc,
+                                 tag=f'{ci.name}.{tag}(A.I)-implies-{tag}(A)')
+                    else:
+                        S.oblige('post', z3.Not(v), oracle=worc,
+                                 tag=f'{ci.name}.{tag}-does-not-follow-from-the-tags-of-the-operands (must be False)')
+                    continue
                 S.oblige('post', isinstance(v, bool), tag=f'{ci.name}.{tag}-query-is-answered-by-a-bool', oracle=orc)
                 row[tag] = f'{v} (via {where})'
+                if family != 'other' and A is not None and v is False:
+                    S.oblige('post', True, oracle={'name': 'user_tagged', 'wrapper': ci.name, 'tag': tag},
+                             tag=f'{ci.name}.{tag}-of-a-wrapped-user-operand-is-False-whatever-the-operand-declares')
                 if allowed:
                     S.oblige('post', True, tag=f'{ci.name}.{tag}-{v}-allowed: matrix property proved in (iii) / referenced',
                              oracle=orc)
